@@ -31,20 +31,43 @@ Forms == DOMAIN ListOf
 
 Kinds == {"simple", "preflight", "options"}    \* GET; OPTIONS + Access-Control-Request-Method; bare OPTIONS
 
-\* pre-existing Vary of the backend response: sequence of header lines, each a sequence of tokens
-VaryOf == [none   |-> <<>>,
-           star   |-> << <<"*">> >>,
-           ae     |-> << <<"Accept-Encoding">> >>,
-           origin |-> << <<"Origin">> >>,
-           lcorigin |-> << <<"origin">> >>,
-           aeorigin |-> << <<"Accept-Encoding", "Origin">> >>,
-           aecookie |-> << <<"Accept-Encoding", "Cookie">> >>,
-           twolines |-> << <<"Accept-Encoding">>, <<"Cookie">> >>]
+\* pre-existing Vary of the backend response: header lines, each a list of field names, and
+\* the list separator used ("," or ", ").  Field-name alphabet: the names that matter ("*",
+\* Origin in two spellings), names that merely CONTAIN "origin" (inside, as prefix, as suffix,
+\* lower case), names that contain "*", and an unrelated name.  Obligations are judged on
+\* the parsed list of field names, never on the header text.
+Toks == {"*", "Accept-Encoding", "Origin", "oRiGiN",
+         "X-Original-Host", "Origin-Agent-Cluster", "X-Forwarded-Origin", "x-forwarded-origin-country",
+         "X-*", "*-Wild"}
+Kind(t) == IF t = "*" THEN "star"
+           ELSE IF t \in {"Origin", "oRiGiN", "origin"} THEN "origin"
+           ELSE IF t \in {"X-Original-Host", "Origin-Agent-Cluster", "X-Forwarded-Origin", "x-forwarded-origin-country"} THEN "like"
+           ELSE IF t \in {"X-*", "*-Wild"} THEN "starlike"
+           ELSE "other"
+V(lines) == [lines |-> lines, sep |-> ", "]
+VaryOf == [none   |-> V(<<>>),
+           star   |-> V(<< <<"*">> >>),
+           ae     |-> V(<< <<"Accept-Encoding">> >>),
+           origin |-> V(<< <<"Origin">> >>),
+           lcorigin |-> V(<< <<"origin">> >>),
+           aeorigin |-> V(<< <<"Accept-Encoding", "Origin">> >>),
+           aecookie |-> V(<< <<"Accept-Encoding", "Cookie">> >>),
+           twolines |-> V(<< <<"Accept-Encoding">>, <<"Cookie">> >>)]
 VaryClasses == DOMAIN VaryOf
+
+\* generated Vary values: every arrangement of at most MaxTok field names in at most MaxTok lines
+CONSTANT MaxTok
+T(n) == [1..n -> Toks]
+Shapes2 == {<<a>> : a \in T(1) \cup T(2)} \cup {<<a, b>> : a \in T(1), b \in T(1)}
+Shapes3 == {<<a>> : a \in T(3)} \cup {<<a, b>> : a \in T(1), b \in T(2)} \cup {<<a, b>> : a \in T(2), b \in T(1)}
+             \cup {<<a, b, c>> : a \in T(1), b \in T(1), c \in T(1)}
+GenLines == IF MaxTok >= 3 THEN Shapes2 \cup Shapes3 ELSE Shapes2
+GenVary == {[lines |-> l, sep |-> ", "] : l \in GenLines}
+             \cup {[lines |-> l, sep |-> ","] : l \in {x \in GenLines : \E i \in DOMAIN x : Len(x[i]) > 1}}
 
 Range(s) == {s[i] : i \in DOMAIN s}
 Tokens(lines) == UNION {Range(lines[i]) : i \in DOMAIN lines}
-IsOriginTok(t) == t \in {"Origin", "origin"}
+IsOriginTok(t) == Kind(t) = "origin"
 
 (* ------------------------------ Layer P ------------------------------ *)
 \* is the request's origin allowed by the rule?  ("%origin" and "*" admit every origin)
@@ -92,16 +115,26 @@ Handle(form, cred, full, kind, oc, before) ==
 (* ------------------------------ cases ------------------------------ *)
 RECURSIVE Join(_, _)
 Join(s, sep) == IF Len(s) = 0 THEN "" ELSE IF Len(s) = 1 THEN s[1] ELSE s[1] \o sep \o Join(Tail(s), sep)
-Lines(v) == [i \in DOMAIN v |-> Join(v[i], ", ")]
+Lines(v) == [i \in DOMAIN v.lines |-> Join(v.lines[i], v.sep)]
+\* class of a generated Vary value (part of the failure signature): kinds of its field names
+GenClass(v) == "g" \o (IF v.sep = "," THEN "c" ELSE "s") \o ":" \o
+               Join([i \in DOMAIN v.lines |-> Join([j \in DOMAIN v.lines[i] |-> Kind(v.lines[i][j])], "+")], "|")
 
 VARIABLE cur
 Params == [form : Forms, cred : BOOLEAN, full : BOOLEAN, kind : Kinds, oc : OriginClasses, vc : VaryClasses]
+GenForms == IF MaxTok >= 3 THEN {"one", "echo", "star"} ELSE Forms
+GenOrigins == IF MaxTok >= 3 THEN {"allowed", "other"} ELSE {"allowed", "other", "absent"}
 
-Init == cur \in {p \in Params : (p.kind = "preflight" /\ p.oc # "absent") => p.vc = "none"}
+Mk(p, vc, v) == [form |-> p.form, cred |-> p.cred, full |-> p.full, kind |-> p.kind, oc |-> p.oc, vc |-> vc, vary |-> v]
+Init == \/ \E p \in {x \in Params : (x.kind = "preflight" /\ x.oc # "absent") => x.vc = "none"} :
+              cur = Mk(p, p.vc, VaryOf[p.vc])
+        \/ \E v \in GenVary, f \in GenForms, o \in GenOrigins :
+              cur = Mk([form |-> f, cred |-> FALSE, full |-> FALSE, kind |-> "simple", oc |-> o], GenClass(v), v)
 Next == UNCHANGED cur
 
-Result == Handle(cur.form, cur.cred, cur.full, cur.kind, cur.oc, VaryOf[cur.vc])
-Base == IF IsPreflight(cur.kind, cur.oc) THEN <<>> ELSE VaryOf[cur.vc]
+Before == IF IsPreflight(cur.kind, cur.oc) THEN V(<<>>) ELSE cur.vary
+Base == Before.lines
+Result == Handle(cur.form, cur.cred, cur.full, cur.kind, cur.oc, cur.vary.lines)
 
 \* M |= P
 PGrant == Loads(cur.form, cur.cred) => GrantOK(cur.form, cur.oc, Result)
@@ -115,11 +148,11 @@ CaseOut ==
      req |-> [method |-> IF cur.kind = "simple" THEN "GET" ELSE "OPTIONS",
               origin |-> OriginOf[cur.oc],
               acrm |-> IF cur.kind = "preflight" THEN "PUT" ELSE "",
-              vary |-> Lines(VaryOf[cur.vc])],
+              vary |-> Lines(cur.vary)],
      expP |-> [allowed |-> Allowed(cur.form, cur.oc),
                acao |-> IF Allowed(cur.form, cur.oc) THEN GrantValue(cur.form, cur.oc) ELSE "",
                needvary |-> Allowed(cur.form, cur.oc) /\ DependsOnOrigin(cur.form),
                keep |-> Tokens(Base)],
      expM |-> [loads |-> Loads(cur.form, cur.cred), acac |-> Result.acac, other |-> Result.other,
-               vary |-> Lines(Result.vary), preflight |-> Result.preflight]]
+               vary |-> Lines([lines |-> Result.vary, sep |-> cur.vary.sep]), preflight |-> Result.preflight]]
 =============================================================================
